@@ -25,7 +25,7 @@ from vlib.loader import LoaderError, limbs
 
 PROP = "C38"
 META = {
-    "ready": False,
+    "ready": True,
     "level": "model_checking",
     "technique": "TLA+ multi-module linker/loader model (copy relocations, canonical PLT, GOT) checked exhaustively by TLC, its scenarios replayed as real three-module programs linked by wild and executed under the system dynamic loader; statically observed views judged by the spec's OneAddress operator",
     "level_text": "All 393 scenarios {function, object} x defining module x reference kind per module (GOT, data pointer, direct non-PIC from the executable) x {PIE, non-PIE} are explored by TLC (OneAddress, InitialValueVisible, SharedStore; three broken variants rejected). Each sampled (quick) / every (thorough) scenario is linked by the real wild (all modules, and the executable against GNU-ld libraries), executed natively (address agreement, initial value, stores through every view), and statically observed at a second base set with the views judged by TLC.",
